@@ -1,36 +1,222 @@
-import Fabio.Model.C20
+import Fabio.Lemmas.C20Num
+import Fabio.Lemmas.C20Lex
 /-!
-C20 — access logging is accurate and can never disturb a request: property theorems.
-(Helper lemmas live in `Fabio/Lemmas`; nothing here is weakened to make a proof pass.)
+C20 — access logging is accurate and can never disturb a request: the property theorems.
+
+Model: `Fabio/Model/C20.lean` (every buffer index and slice of the Go code is a checked operation);
+reference renderings ("what the standard library prints"): `Fabio/Model/C20Spec.lean`, built on
+`Nat.toDigits` / `Nat.repr`, not on the loops of the code. Proofs: `Fabio/Lemmas/C20*.lean`.
+Nothing here is weakened to make a proof pass; where the code cannot satisfy a statement the full
+statement is kept in a comment next to the `_partial` theorem and its refutation.
 -/
 namespace Fabio.Props.C20
 open Fabio Fabio.Model.C20
 
-theorem lastIndexOf_go_lt (c : Char) (s : List Char) (i : Nat) (b : Option Nat) (n : Nat)
-    (hb : ∀ m, b = some m → m < i) (h : lastIndexOf.go c i b s = some n) : n < i + s.length := by
-  induction s generalizing i b with
-  | nil => simp [lastIndexOf.go] at h; have := hb n h; simpa using this
-  | cons x xs ih =>
-    simp only [lastIndexOf.go] at h
-    have := ih (i+1) _ (by
-      intro m hm; split at hm
-      · cases hm; omega
-      · have := hb m hm; omega) h
-    simp only [List.length_cons]; omega
+abbrev EventInRange := Lemmas.C20.EventInRange
+abbrev EventCalendar := Lemmas.C20.EventCalendar
+
+/-! ## number formatters -/
+
+/-- `atoi` prints the sign and the zero-padded decimal digits (`Nat.toDigits 10`) of `|i|`, for every
+int64 except MinInt64 and every pad that fits the 128-byte scratch array. -/
+theorem atoi_eq_decimal (i : Int) (pad : Nat) (hlo : -2^63 < i) (hhi : i < 2^63) (hpad : pad ≤ 127) :
+    atoi i pad = .ok (Spec.decimal i pad) := Lemmas.C20.atoi_eq_decimal i pad hlo hhi hpad
+
+/-- … and its rendering read as text is `Nat.repr |i|`, i.e. what `toString` prints (pad 0). -/
+theorem atoi_eq_repr (i : Int) (hlo : -2^63 < i) (hhi : i < 2^63) :
+    atoi i 0 = .ok ((if i < 0 then ['-'] else []) ++ (Nat.repr i.natAbs).toList) := by
+  rw [atoi_eq_decimal i 0 hlo hhi (by omega)]
+  simp [Spec.decimal, Spec.zpad]
+
+/-- MinInt64: `-i` wraps, the digit loop is skipped: a bare sign (and the padding). No log field can take
+this value (sizes and status codes are non-negative, durations are divided first). -/
+theorem atoi_minInt64 (pad : Nat) (hpad : pad ≤ 127) :
+    atoi minInt64 pad = .ok ('-' :: List.replicate pad '0') := Lemmas.C20.atoi_minInt64 pad hpad
+
+/-- `atoi` never panics on an int64 with the pads the package uses (fact `atoi_pads_pinned`: ≤ 9). -/
+theorem atoi_total (i : Int) (pad : Nat) (hlo : -2^63 ≤ i) (hhi : i < 2^63) (hpad : pad ≤ 127) :
+    (atoi i pad).isPanic = false := Lemmas.C20.atoi_total i pad hlo hhi hpad
+
+/-- The bound on `pad` is forced: one more and the write before the array starts panics. -/
+theorem atoi_pad_bound_forced : (atoi 7 129).isPanic = true ∧ (atoi (-7) 128).isPanic = true := by decide
+
+/-- `i32toa` equals `strconv.Itoa` on every int32, MinInt32 included. -/
+theorem i32toa_eq_decimal (n : Int) (hlo : -2^31 ≤ n) (hhi : n < 2^31) :
+    i32toa n = .ok (Spec.itoa n) := Lemmas.C20.i32toa_eq_decimal n hlo hhi
+
+/-- `uint16base16` equals `"0x" ++` the four lower-case hex digits, most significant first
+(`Nat.toDigits 16` zero-padded to width 4), on every uint16. -/
+theorem uint16base16_eq_hex4 (n : Nat) (h : n < 65536) :
+    uint16base16 n = .ok (Spec.hex4 n) := Lemmas.C20.uint16base16_eq_hex4 n h
+
+/-! ## uuid.ToString -/
+
+/-- The text is the 8-4-4-4-12 lower-hex rendering of the first 16 of the 24 bytes, in order; no index
+of the position table leaves the 36-byte buffer. -/
+theorem uuid_format (u : List UInt8) (h : u.length = 24) :
+    uuidToString u = .ok (Spec.uuidText u) := Lemmas.C20.uuid_format u h
+
+/-- length 36, dashes at 8/13/18/23, lower-case hex digits everywhere else -/
+theorem uuid_shape (u : List UInt8) (h : u.length = 24) :
+    (Spec.uuidText u).length = 36 ∧
+    (∀ i, i ∈ [8, 13, 18, 23] → (Spec.uuidText u)[i]? = some '-') ∧
+    (∀ i, i < 36 → i ∉ [8, 13, 18, 23] → ∃ c, (Spec.uuidText u)[i]? = some c ∧ Lemmas.C20.isLowerHex c = true) :=
+  Lemmas.C20.uuid_shape u h
+
+/-! ## hostport -/
 
 /-- `hostport` never panics, whatever the address looks like (D24 repaired). -/
-theorem hostport_total (s : List Char) : (hostport s).isPanic = false := by
-  unfold hostport
-  split
-  · rfl
-  · split
-    · rfl
-    · rename_i n h
-      have : n < 0 + s.length := lastIndexOf_go_lt ':' s 0 none n (by simp) h
-      have h2 : n + 1 ≤ s.length := by omega
-      simp [h2, Outcome.isPanic]
+theorem hostport_total (s : List Char) : (hostport s).isPanic = false := Lemmas.C20.hostport_total s
 
+/-- With a colon, `host:port` is the address and the port has no colon; without one the address is the
+host and the port is empty. -/
+theorem hostport_spec (s : List Char) :
+    ∃ h p, hostport s = .ok (h, p) ∧ Spec.hostportOk s h p = true := Lemmas.C20.hostport_spec s
+
+/-! ## lex / parse -/
+
+/-- `lex` consumes at least one rune of a non-empty input and never more than there is: the loop of
+`parse` terminates and its slice expressions are in range. -/
+theorem lex_progress (s : List Char) (h : s ≠ []) : 1 ≤ (lex s).2 ∧ (lex s).2 ≤ s.length :=
+  Lemmas.C20.lex_progress s h
+
+/-- `parse` never panics and never spins (fuel `len + 1` suffices), for every format and field table. -/
+theorem parse_total (known : List Char → Bool) (format : List Char) :
+    (parseWith known format).isPanic = false := Lemmas.C20.parse_total known format
+
+/-- A successful parse contains known fields only: an unknown field is an error of `logger.New`. -/
+theorem parse_known (known : List Char → Bool) (format : List Char) (p : List Item)
+    (h : parseWith known format = .ok (.ok p)) : ∀ n, Item.field n ∈ p → known n = true :=
+  Lemmas.C20.parse_known known format p h
+
+/-- A successful parse splits the format: nothing is dropped or invented. -/
+theorem parse_concat (known : List Char → Bool) (format : List Char) (p : List Item)
+    (h : parseWith known format = .ok (.ok p)) : p.flatMap Lemmas.C20.itemSrc = format :=
+  Lemmas.C20.parse_concat known format p h
+
+/-! ## rendering an event -/
+
+/-- `$response_time_{ms,us,ns}` for End ≥ Start: seconds, a dot, the truncated fraction zero-padded. -/
+theorem durations (e : Event) (h0 : 0 ≤ e.durNs) (h1 : e.durNs < 2^63) :
+    responseTime e 1000000 3 = .ok (Spec.refSeconds e.durNs 3) ∧
+    responseTime e 1000 6 = .ok (Spec.refSeconds e.durNs 6) ∧
+    responseTime e 1 9 = .ok (Spec.refSeconds e.durNs 9) := Lemmas.C20.durations e h0 h1
+
+/-
+Full statement (every int64 the event can carry):
+  theorem fields_eq_reference (e) (hr : EventInRange e) (hc : EventCalendar e) (hd : 0 ≤ e.durNs) … :
+      ∃ r, Spec.refField e name = some r ∧ f e = .ok r
+It is false at MinInt64 (`fields_eq_reference_fails_at_minInt64`): the extra hypothesis `hmin` below is
+forced by `atoi_minInt64`. The four `hostport` fields are covered by `hostport_spec`.
+-/
+/-- Every field of the table (other than the four that go through `hostport`) renders what the reference
+does — `Nat.repr` for the numbers; for the time fields the calendar fields *of End in UTC*, in
+RFC 3339 / common-log layout with `Z` / `+0000` (D25 repaired: facts `time_fields_use_utc`). -/
+theorem fields_eq_reference_partial (e : Event) (hr : EventInRange e) (hc : EventCalendar e) (hd : 0 ≤ e.durNs)
+    (hmin : -2^63 < e.status ∧ -2^63 < e.contentLength ∧ -2^63 < e.unixNano)
+    (name : String) (f : Event → Outcome (List Char)) (hf : fieldTable.lookup name = some f)
+    (hn : name ∉ ["$remote_host", "$remote_port", "$upstream_host", "$upstream_port"]) :
+    ∃ r, Spec.refField e name = some r ∧ f e = .ok r :=
+  Lemmas.C20.fields_eq_reference_partial e hr hc hd hmin name f hf hn
+
+theorem fields_eq_reference_fails_at_minInt64 :
+    ¬ (∀ (e : Event) (_ : EventInRange e) (_ : EventCalendar e) (_ : 0 ≤ e.durNs)
+        (name : String) (f : Event → Outcome (List Char)) (_ : fieldTable.lookup name = some f)
+        (_ : name ∉ ["$remote_host", "$remote_port", "$upstream_host", "$upstream_port"]),
+        ∃ r, Spec.refField e name = some r ∧ f e = .ok r) :=
+  Lemmas.C20.fields_eq_reference_counterexample
+
+/-- The time fields spelled out: with the UTC calendar fields of the instant as inputs, `$time_rfc3339` is
+`YYYY-MM-DDTHH:MM:SSZ` and `$time_common` is `DD/Mon/YYYY:HH:MM:SS +0000`. -/
+theorem time_fields_utc (e : Event) (hr : EventInRange e) (hc : EventCalendar e) (hd : 0 ≤ e.durNs)
+    (hmin : -2^63 < e.status ∧ -2^63 < e.contentLength ∧ -2^63 < e.unixNano)
+    (f g : Event → Outcome (List Char))
+    (hf : fieldTable.lookup "$time_rfc3339" = some f) (hg : fieldTable.lookup "$time_common" = some g) :
+    f e = .ok (Spec.refRfc3339 e ++ ['Z']) ∧
+    ∃ r, Spec.refField e "$time_common" = some r ∧ g e = .ok r := by
+  constructor
+  · obtain ⟨r, h1, h2⟩ := fields_eq_reference_partial e hr hc hd hmin _ f hf (by decide)
+    have : r = Spec.refRfc3339 e ++ ['Z'] := by
+      have : Spec.refField e "$time_rfc3339" = some (Spec.refRfc3339 e ++ ['Z']) := rfl
+      rw [this] at h1; exact (Option.some.inj h1).symm
+    rw [h2, this]
+  · exact fields_eq_reference_partial e hr hc hd hmin _ g hg (by decide)
+
+/-- No field function panics and neither does `write`: logging cannot take the request handler down,
+whatever the addresses, header values, sizes and times are. -/
+theorem write_total (p : List Item) (e : Event) (hp : ∀ n, Item.field n ∈ p → knownField n = true)
+    (he : EventInRange e) : (write p e).isPanic = false := Lemmas.C20.write_total p e hp he
+
+/-- … in particular for every pattern `parse` accepts. -/
+theorem log_total (format : List Char) (e : Event) (he : EventInRange e) :
+    (newAndLog format e).isPanic = false := by
+  unfold newAndLog
+  have ht := parse_total knownField format
+  cases hp : parse format with
+  | panic w => unfold parse at hp; rw [hp] at ht; simp [Outcome.isPanic] at ht
+  | ok r =>
+    simp only [Outcome.bind]
+    cases r with
+    | error n => rfl
+    | ok p =>
+      cases p with
+      | nil => rfl
+      | cons it rest =>
+        have hk := parse_known knownField format (it :: rest) hp
+        have := write_total (it :: rest) e hk he
+        simp only [Lemmas.C20.isPanic_map]
+        exact this
+
+/-
+Full statement of the property sentence "writes exactly one line":
+  ∀ p e b, p ≠ [] → render p e = .ok b → write p e = .ok (b ++ ['\n'])
+It is false (`exactly_one_line_fails_on_empty_rendering`, D26): `pattern.write` returns before appending
+the newline when the buffer is empty. The hypothesis `b ≠ []` is forced.
+-/
+/-- A non-empty rendering is followed by exactly one `'\n'`. -/
+theorem exactly_one_line_partial (p : List Item) (e : Event) (b : List Char) (h : render p e = .ok b) (hne : b ≠ []) :
+    write p e = .ok (b ++ ['\n']) := by
+  unfold write
+  rw [h]
+  cases b with
+  | nil => exact absurd rfl hne
+  | cons c cs => rfl
+
+/-- … and if no value carries a newline of its own, the output is one line: one `'\n'`, at the end. -/
+theorem one_newline (b : List Char) (h : '\n' ∉ b) : (b ++ ['\n']).count '\n' = 1 := by
+  simp [List.count_append, List.count_eq_zero.mpr h]
+
+/-- An empty rendering writes nothing at all — not even the newline (D26). -/
+theorem empty_rendering_writes_nothing (p : List Item) (e : Event) (h : render p e = .ok []) :
+    write p e = .ok [] := by
+  unfold write; rw [h]; rfl
+
+/-- Witness: the valid format `$header.Referer` and a request without that header. -/
+theorem exactly_one_line_fails_on_empty_rendering :
+    ∃ (p : List Item) (e : Event), p ≠ [] ∧ parse "$header.Referer".toList = .ok (.ok p) ∧
+      render p e = .ok [] ∧ write p e = .ok [] :=
+  ⟨[.header "Referer".toList], {}, by decide, by rfl, by decide, by decide⟩
+
+/-! ## non-vacuity -/
+
+example : atoi (-42) 4 = .ok "-0042".toList := by decide
+example : atoi 9223372036854775807 0 = .ok "9223372036854775807".toList := by decide
+example : -2^63 < (-9223372036854775807 : Int) ∧ (-9223372036854775807 : Int) < 2^63 := by decide
+example : i32toa (-2147483648) = .ok "-2147483648".toList := by decide
+example : uint16base16 0x0301 = .ok "0x0301".toList := by decide
+example : uuidToString ((List.range 24).map UInt8.ofNat) = .ok "00010203-0405-0607-0809-0a0b0c0d0e0f".toList := by decide
 example : hostport "backend".toList = .ok ("backend".toList, []) := by decide
-example : hostport "h:80".toList = .ok ("h".toList, "80".toList) := by decide
+example : hostport "[::1]:80".toList = .ok ("[::1]".toList, "80".toList) := by decide
+example : lex "$header.X-Y z".toList = (.header, 11) := by decide
+example : lex "$header.".toList = (.field, 7) := by decide
+example : parse "$remote_host [$time_common] $nope".toList = .ok (.error "$nope".toList) := by rfl
+example : ∃ e : Event, EventInRange e ∧ EventCalendar e ∧ 0 ≤ e.durNs :=
+  ⟨{ year := 2020, month := 2, day := 29, hour := 23, minute := 59, second := 59, nanos := 999999999, durNs := 1500000 },
+   ⟨by decide, by decide, by decide, by decide, by decide, by decide, by decide, by decide, by decide, by decide, by decide⟩,
+   ⟨by decide, by decide, by decide, by decide, by decide, by decide, by decide⟩, by decide⟩
+example : newAndLog "$time_rfc3339_ms $response_time_ms|$header.x-y".toList
+    { year := 2020, month := 2, day := 29, hour := 23, minute := 59, second := 59, nanos := 999999999, durNs := 1500000,
+      header := some [("X-Y".toList, ["v".toList])] }
+    = .ok (.written "2020-02-29T23:59:59.999Z 0.001|v\n".toList) := by decide
 
 end Fabio.Props.C20
